@@ -1,5 +1,6 @@
 // govc:pkg .
 // govc:bound INNER and LEFT JOIN x single and composite ON keys x 40 (thorough: 200) random histories of 30 steps (table upserts / deletes interleaved with emitted rows; keys are strings with separator bytes, ints, int-valued floats, NULL and missing)
+// govc:also C20
 // Bounded stand-in (NOT a proof) for the wiring around the table store under contract (ON parsing, key derivation,
 // lookup, INNER/LEFT handling, projection of joined columns): each row is enriched from the table state at the moment it is
 // processed.
